@@ -1,4 +1,4 @@
-import Hive.Model.KVCopy
+import Hive.Model.KVFault
 /-!
 # What the wrappers forward: call traces through `flushkv` / `debug` stacks (C04)
 
@@ -86,20 +86,26 @@ def trFwd (c : Option (Cmd × List Bytes)) (call : Call) : List TWrap → List E
   | .debug f cb :: ws => optCb f cb c ++ trFwd c call ws
 
 /-- A mutator (`Set`, `Delete`, `DeletePrefix`, `Clear`, batch `Commit`): `debug` reports and forwards,
-`flushkv` forwards and, if the wrapped call returned nil (`ok`), calls `Flush()` of the wrapped store. -/
-def trMut (c : Option (Cmd × List Bytes)) (call : Call) (ok : Bool) : List TWrap → List Ev
-  | [] => [.call call]
-  | .debug f cb :: ws => optCb f cb c ++ trMut c call ok ws
-  | .flush :: ws => trMut c call ok ws ++ (if ok then trFwd none .flush ws else [])
+`flushkv` forwards and, if the wrapped call returned nil, calls `Flush()` of the wrapped store.  The result is
+the trace and whether the call returns nil at this layer: `ok` says whether the store below the wrappers
+accepts the mutation (it is open), `fe` whether a `Flush` that reaches it fails (`Hive/Model/KVFault.lean`) —
+then the `flushkv` layer that called it returns the error, and the layers above it do not flush any more. -/
+def trMut (fe : Bool) (c : Option (Cmd × List Bytes)) (call : Call) (ok : Bool) : List TWrap → List Ev × Bool
+  | [] => ([.call call], ok)
+  | .debug f cb :: ws => let r := trMut fe c call ok ws; (optCb f cb c ++ r.1, r.2)
+  | .flush :: ws =>
+    let r := trMut fe c call ok ws
+    if r.2 then (r.1 ++ trFwd none .flush ws, !fe) else r
 
 /-- Stacks of the live handles, with their debug configurations. -/
 structure TTab where
   spy : Bool                              -- the recording store is installed below the wrappers of this tree
+  fault : Bool                            -- ... and makes every `Flush` that would succeed fail (`arm` / `disarm`)
   views : List (Nat × List TWrap)
   batches : List (Nat × List TWrap)
 deriving Repr, DecidableEq
 
-def TTab.init : TTab := { spy := false, views := [(0, [])], batches := [] }
+def TTab.init : TTab := { spy := false, fault := false, views := [(0, [])], batches := [] }
 
 /-- The trace of one request: `s` is the state before it (the trace depends on it only through the
 handle tables and the `closed` flag: a mutation refused by the closed store is not followed by `Flush`).
@@ -121,19 +127,19 @@ def traceOp (t : TTab) (s : St) (dirs : List Nat) : Op → List Ev
   | .has v k => match t.views.lookup v with | some ws => trFwd (some (.has, [k])) (.has k) ws | none => []
   | .set v k x =>
     match t.views.lookup v with
-    | some ws => trMut (some (.set, [k, x])) (.set k x) (!s.db.closed) ws
+    | some ws => (trMut t.fault (some (.set, [k, x])) (.set k x) (!s.db.closed) ws).1
     | none => []
   | .del v k =>
     match t.views.lookup v with
-    | some ws => trMut (some (.delete, [k])) (.delete k) (!s.db.closed) ws
+    | some ws => (trMut t.fault (some (.delete, [k])) (.delete k) (!s.db.closed) ws).1
     | none => []
   | .delp v p =>
     match t.views.lookup v with
-    | some ws => trMut (some (.deletePrefix, [p])) (.deletePrefix p) (!s.db.closed) ws
+    | some ws => (trMut t.fault (some (.deletePrefix, [p])) (.deletePrefix p) (!s.db.closed) ws).1
     | none => []
   | .clear v =>
     match t.views.lookup v with
-    | some ws => trMut (some (.clear, [])) .clear (!s.db.closed) ws
+    | some ws => (trMut t.fault (some (.clear, [])) .clear (!s.db.closed) ws).1
     | none => []
   | .flush v => match t.views.lookup v with | some ws => trFwd none .flush ws | none => []
   | .close v => match t.views.lookup v with | some ws => trFwd none .close ws | none => []
@@ -156,7 +162,7 @@ def traceOp (t : TTab) (s : St) (dirs : List Nat) : Op → List Ev
     | _, _ => []
   | .commit b _ =>
     match s.batches.lookup b, t.batches.lookup b with
-    | some _, some ws => trMut none .bCommit (!s.db.closed) ws
+    | some _, some ws => (trMut t.fault none .bCommit (!s.db.closed) ws).1
     | _, _ => []
   | .cancel b =>
     match s.batches.lookup b, t.batches.lookup b with
@@ -244,21 +250,23 @@ def treeLine (st : TState) (second : Bool) (toks : List String) : TState × Stri
   let suffix (evs : List Ev) : String := if t.spy then " ;" ++ showTrace evs else ""
   match toks with
   | ["spy"] => (put s { t with spy := true }, "ok")
+  | ["arm"] => if t.spy then (put s { t with fault := true }, "ok" ++ suffix []) else (st, "bad-op")
+  | ["disarm"] => if t.spy then (put s { t with fault := false }, "ok" ++ suffix []) else (st, "bad-op")
   | ["wrap", v, p, cfgTok] =>
     match parseCfg cfgTok with
     | none => (st, "bad-op")
     | some cfg =>
       match parseOp ["wrap", v, p, if cfg == .flush then "f" else "d"] with
-      | some op => let r := step s op; (put r.1 (t.step cfg r.2 op), showOut r.2 ++ suffix (traceOp t s [] op))
+      | some op => let r := stepF t.fault s op; (put r.1 (t.step cfg r.2 op), showOut r.2 ++ suffix (traceOp t s [] op))
       | none => (st, "bad-op")
   | "iterc" :: v :: p :: d :: rest =>
     match parseOp ("iter" :: v :: p :: d :: rest), parseDirs d with
     | some (.iter v p dd n), some dirs =>
-      let r1 := step s (.iter v p dd n)
+      let r1 := stepF t.fault s (.iter v p dd n)
       let e1 := traceOp t s dirs (.iter v p dd n)
       match r1.2 with
       | .kvs (_ :: _) =>
-        let r2 := step r1.1 (.clear v)
+        let r2 := stepF t.fault r1.1 (.clear v)
         (put r2.1 t, showOut r1.2 ++ " | " ++ showOut r2.2 ++ suffix (e1 ++ traceOp t r1.1 [] (.clear v)))
       | .badHandle => (put r1.1 t, showOut r1.2 ++ suffix e1)
       | _ => (put r1.1 t, showOut r1.2 ++ " | none" ++ suffix e1)
@@ -269,19 +277,19 @@ def treeLine (st : TState) (second : Bool) (toks : List String) : TState × Stri
       -- callbacks and the snapshot; nothing is changed (and no lock is held: the next request is served)
       match parseOp [kind, v, p, "fwd", n], parseDirs d with
       | some op, some dirs =>
-        let r := step s op
+        let r := stepF t.fault s op
         let ans := match r.2 with | .kvs _ => "panic" | .keys _ => "panic" | o => showOut o
         (st, ans ++ suffix (traceOp t s dirs op))
       | _, _ => (st, "bad-op")
     else
       match parseOp toks with
       | some op =>
-        let r := step s op
+        let r := stepF t.fault s op
         (put r.1 (t.step .flush r.2 op), showOut r.2 ++ suffix (traceOp t s ((parseDirs d).getD []) op))
       | none => (st, "bad-op")
   | _ =>
     match parseOp toks with
-    | some op => let r := step s op; (put r.1 (t.step .flush r.2 op), showOut r.2 ++ suffix (traceOp t s [] op))
+    | some op => let r := stepF t.fault s op; (put r.1 (t.step .flush r.2 op), showOut r.2 ++ suffix (traceOp t s [] op))
     | none => (st, "bad-op")
 
 /-- `fn dbg`: the constants of `debug.go` (command bits in declaration order with their names, `AllCommands`). -/
@@ -293,8 +301,16 @@ def tstepLine (st : TState) (toks : List String) : TState × String :=
   match toks with
   | ["fn", "dbg"] => (st, dbgConstLine)
   | "fn" :: _ => let r := pstepLine st.p toks; ({ st with p := r.1 }, r.2)
-  | "copy" :: _ => let r := pstepLine st.p toks; ({ st with p := r.1 }, r.2)
-  | "copyb" :: _ => let r := pstepLine st.p toks; ({ st with p := r.1 }, r.2)
+  | ["copy", sT, v, dT, w] =>
+    match parseTree sT, v.toNat?, parseTree dT, w.toNat? with
+    | some sT, some v, some dT, some w =>
+      let r := pstepF st.t1.fault st.t2.fault st.p (.copy sT v dT w); ({ st with p := r.1 }, showOut r.2)
+    | _, _, _, _ => (st, "bad-op")
+  | ["copyb", sT, v, dT, w, n] =>
+    match parseTree sT, v.toNat?, parseTree dT, w.toNat?, n.toNat? with
+    | some sT, some v, some dT, some w, some n =>
+      let r := pstepF st.t1.fault st.t2.fault st.p (.copyb sT v dT w n); ({ st with p := r.1 }, showOut r.2)
+    | _, _, _, _, _ => (st, "bad-op")
   | "2" :: rest => treeLine st true rest
   | _ => treeLine st false toks
 
